@@ -238,6 +238,7 @@ func loImpliesAtLeast(fs facts, limit *big.Float, truncating bool) bool {
 }
 
 func checkC03(c *Ctx, r *Report) {
+	defer numericKindsRule(c, r)
 	defer numberSourceRule(c, r, "R03g")
 	r.Assumption("strconv.ParseInt/ParseUint/ParseFloat/ParseBool and time.ParseDuration report out-of-range and malformed input as errors (trusted standard library)")
 	r.Assumption("int->float conversions round to the nearest float and are not treated as wrap-around; that an in-range value is stored exactly is not decided")
@@ -445,6 +446,41 @@ func reflectConvertRule(c *Ctx, r *Report, fn *ssa.Function, call *ssa.Call, siz
 					nonNumeric = "destination is the package-level type " + g.Name()
 				}
 			}
+		}
+	}
+	// the destination's kind went through the three numeric kind predicates and none accepted it: with R03h (every
+	// numeric kind is listed by exactly one of them) the destination is no number, so nothing can wrap around
+	if nonNumeric == "" {
+		refused := map[string]bool{}
+		for _, cd := range DomConds(call.Block()) {
+			pc, isCall := cd.V.(*ssa.Call)
+			if !isCall || cd.Truth {
+				continue
+			}
+			f := pc.Call.StaticCallee()
+			if f == nil || !c.InRepo(f) || len(pc.Call.Args) != 1 {
+				continue
+			}
+			if f.Name() != "isInt" && f.Name() != "isUint" && f.Name() != "isFloat" {
+				continue
+			}
+			// the argument is Kind() of the destination type
+			for _, ks := range Sources(pc.Call.Args[0]) {
+				kc, ok := ks.(*ssa.Call)
+				if !ok || !kc.Call.IsInvoke() || kc.Call.Method.Name() != "Kind" {
+					continue
+				}
+				for _, ts := range Sources(kc.Call.Value) {
+					for _, ds := range Sources(typ) {
+						if ts == ds {
+							refused[f.Name()] = true
+						}
+					}
+				}
+			}
+		}
+		if refused["isInt"] && refused["isUint"] && refused["isFloat"] {
+			nonNumeric = "the destination's kind was refused by isInt, isUint and isFloat, which between them list every numeric kind (R03h): the destination is no number"
 		}
 	}
 	// receiver: reflect.ValueOf(x) with x of known basic type?
@@ -852,5 +888,49 @@ func durationThroughReferenceRule(c *Ctx, r *Report) {
 	})
 	if n == 0 {
 		r.add("R03f", c.FnName(fn), "node type of the evaluated value", c.Pos(fn.Pos()), Undecided, true, "no assertion to *cfgInt found in reifyDuration")
+	}
+}
+
+// numericKindsRule (R03h): doReifyPrimitive sends a target to the range-checked converters (reifyInt / reifyUint /
+// reifyFloat) by the kind predicates isInt / isUint / isFloat and lets everything else fall through to a raw reflect
+// Convert (the known finding of R03c). A numeric kind that no predicate lists — uintptr was missing from isUint —
+// takes that fall-through: int64(-1) became 18446744073709551615 without an error (repaired in 00c881a).
+func numericKindsRule(c *Ctx, r *Report) {
+	r.Rule("R03h", "each of the thirteen numeric reflect kinds (Int..Int64, Uint..Uint64, Uintptr, Float32, Float64) is accepted by exactly one of the kind predicates isInt / isUint / isFloat that doReifyPrimitive dispatches on", 13)
+	_, kinds := reflectKind(c)
+	want := map[string]string{"Int": "isInt", "Int8": "isInt", "Int16": "isInt", "Int32": "isInt", "Int64": "isInt",
+		"Uint": "isUint", "Uint8": "isUint", "Uint16": "isUint", "Uint32": "isUint", "Uint64": "isUint", "Uintptr": "isUint",
+		"Float32": "isFloat", "Float64": "isFloat"}
+	dp := c.Func("", "doReifyPrimitive")
+	preds := map[string]*ssa.Function{}
+	for _, n := range []string{"isInt", "isUint", "isFloat"} {
+		f := c.Func("", n)
+		preds[n] = f
+		if len(CallsTo(dp, f, false)) == 0 {
+			r.Bad("R03h", c.FnName(dp), "dispatch on "+n, c.Pos(dp.Pos()), "doReifyPrimitive no longer consults "+n+": the kinds it lists take the unchecked fall-through conversion")
+		}
+	}
+	for _, kc := range kinds {
+		w, numeric := want[kc.Name]
+		if !numeric {
+			continue
+		}
+		var got []string
+		und := false
+		for _, n := range []string{"isInt", "isUint", "isFloat"} {
+			v, ok := evalIntPredicate(preds[n], kc.Val)
+			if !ok {
+				und = true
+			}
+			if v {
+				got = append(got, n)
+			}
+		}
+		if und {
+			r.add("R03h", "ucfg.kind predicates", "kind "+kc.Name, c.Pos(preds[w].Pos()), Undecided, true, "a kind predicate could not be evaluated for "+kc.Name)
+			continue
+		}
+		r.Check(len(got) == 1 && got[0] == w, "R03h", "ucfg.kind predicates", "kind "+kc.Name, c.Pos(preds[w].Pos()), "accepted by "+w+" only",
+			fmt.Sprintf("kind %s is accepted by %v instead of %s alone: a target of that kind does not reach its range-checked converter (no predicate: the raw reflect Convert of doReifyPrimitive wraps negative and out-of-range numbers around)", kc.Name, got, w))
 	}
 }
